@@ -17,8 +17,14 @@ CONSTANTS
   Queries <- MCQueriesC
   MaxCount = 5
   Tracks = {0}
+  Hscrolls = {FALSE}
+  HscrollOffs = {10}
+  KeepRights = {FALSE}
+  Scrollbars <- MCNoScrollbar
+  Borders = {FALSE}
+  Patterns <- MCPatternsNone
   Acts = {}
 INIT GenInit
-NEXT GenNext
-INVARIANTS GenCase InvClaims InvPlace
+NEXT GenNextL
+INVARIANTS GenCase InvClaims InvPlace InvHidden
 CHECK_DEADLOCK FALSE
